@@ -443,15 +443,33 @@ def _native_loop(ex, kind, script, rounds, outer):
     The body / folds / condition are the fixed ones of the driver; timestamps, watermarks and nested loops are not
     reproduced (nested: inconclusive)."""
     from mirsym.executor import RustPanic
-    if outer != 1:
-        raise Unsupported('native loop replay covers a single (not nested) loop only')
     M = (1 << 64) - 1
     xs = [hlib.concrete_int(ex, e.fields[0]) for e in script if e.variant in ('Item', 'Timestamped')]
     r = rounds[0]
     runner, prof = ex.env['native']
     ex.env['native_used'] = True
     res = {}
-    for par in (1, 2, 3):
+    # (b) the same loop nested in an outer replay (the inner body reads the inner state): the loop must restart cleanly
+    # for each outer round.  Input: the witness' items (1, 2, 3 when it has none), at least two rounds on both levels.
+    nxs = xs or [1, 2, 3]
+    o, i = max(outer, 2), max(r, 2)
+    for par in (1, 3):
+        txt = runner('pipe_nested', [par, o, i, len(nxs)] + nxs)[prof]
+        res['nested', par] = txt
+        ex.env['native_out'] = res
+        if txt == 'PANIC':
+            raise RustPanic('the real nested replay job panicked (parallelism %d)' % par)
+        if txt.startswith(('BADARGS', 'UNKNOWN', 'NORESULT')):
+            raise Unsupported('native driver: ' + txt)
+        v = 0
+        for k in range(i):
+            v = (v + sum((31 * x + v) & M for x in nxs)) & M
+        want = str((o * v) & M)
+        if txt.startswith('TIMEOUT') or ' '.join(txt.split()) != want:
+            raise Violation('the real nested job replay(%d){replay(%d){x*31 + state}} over %s (parallelism %d) yields "%s", the '
+                            'sequential fixed point is "%s"' % (o, i, nxs, par, txt, want), hlib._wit(ex))
+    # (a) the single loop on the witness' items for the witness' number of rounds
+    for par in ((1, 2, 3) if outer == 1 else ()):
         txt = runner(kind, [par, r, len(xs)] + xs)[prof]
         res[par] = txt
         ex.env['native_out'] = res
